@@ -1,6 +1,6 @@
 import FlytModel.Generated.IR
 import FlytModel.Expected.IR
-/-! The translation of `Flow_Run` from the CURRENT source is, term for term, the IR the refinement theorems are about. -/
+/-! The translation of `Flow_Run` from the CURRENT source is, term for term, the expected IR. -/
 namespace Flyt.Tie
 theorem Flow_Run : Flyt.Generated.IR.Flow_Run = Flyt.Expected.IR.Flow_Run := rfl
 end Flyt.Tie
